@@ -82,7 +82,8 @@ def _body(case, ctx):
     F = (Fd * 2.0 ** case["F_exp"]).astype(real_t)
     if not vec:
         u, pre, F = u[0], pre[0], F[0]
-    lag = np.zeros_like(F)
+    # the Lagrangian output buffer is re-used from step to step by its callers: interpolation overwrites whatever it holds
+    lag = np.full_like(F, 777.25)
     with ctx.repo_call("interpolation kernel"):
         com.eulerian_to_lagrangian_grid_interpolation_kernel(lag_grid_field=lag, eul_grid_field=u, interp_weights=w,
                                                              nearest_eul_grid_index_to_lag_grid=nearest)
